@@ -36,6 +36,9 @@ class EFLRSetsDict(defaultdict):
     def try_add_set(self, eflr_set: EFLRSet) -> bool:
         """Try to register a new EFLRSet instance in the structure. Return True on success, False otherwise."""
 
+        # let the set see the other sets of its type in this structure (copy numbers are unique per type, not per set)
+        eflr_set.sibling_sets = self[eflr_set.__class__]
+
         if eflr_set.set_name in self[eflr_set.__class__]:
             return False
         else:
